@@ -14,7 +14,7 @@ CHUNK = 4
 RULE = ("8 function/gradient pairs x dimensions 1..12 (2.. for Rosenbrock, Beale) x lattice "
         "points: ALL of V^n for n<=3 (quick) / n<=4 (thorough), V = 9 non-integer, "
         "non-half-integer values in [-5,5] away from 0, and 27 cyclic patterns of V for "
-        "larger n, each point passed as a fresh ndarray, through one work array overwritten in "
+        "larger n, plus for n>=2 the points with one or two coordinates exactly 0.0 (3 patterns per position), each point passed as a fresh ndarray, through one work array overwritten in "
         "place, as a list and as a tuple; oracle: 6th-order central differences of the package's own function "
         "(h=1e-3) agree within 1e-7 relative, gradient has the shape of x, function returns "
         "a real scalar; non-trivial = point with at least two distinct coordinates (or n=1); "
@@ -22,7 +22,8 @@ RULE = ("8 function/gradient pairs x dimensions 1..12 (2.. for Rosenbrock, Beale
 ASSUMPTIONS = [
     "numerical derivative: 6th-order central differences, h = 1e-3 (truncation < 1e-12 on "
     "these functions)",
-    "points avoid the singularities (origin for Ackley, zeros of cos(x_i/sqrt(i)) for Griewank)",
+    "points avoid the singularities (origin for Ackley - points on coordinate hyperplanes are "
+    "included -, zeros of cos(x_i/sqrt(i)) for Griewank)",
 ]
 V0 = [-4.3, -2.75, -1.1, -0.45, 0.3, 0.65, 1.9, 3.35, 4.8]
 H = 1e-3
@@ -61,6 +62,18 @@ def points(case):
                     x = np.array([vv[(i + 2 * j) % 9] for j in range(n)])
                     x[i] = z
                     yield x
+    if n >= 2:
+        # letter: some (not all) coordinates exactly 0.0 - regular points of all eight
+        # functions lying on coordinate hyperplanes
+        for i in range(n):
+            for o in (0, 4, 7):
+                x = np.array([vv[(o + 2 * j) % 9] for j in range(n)])
+                x[i] = 0.0
+                yield x
+                if n >= 3:
+                    x = x.copy()
+                    x[(i + 1) % n] = 0.0
+                    yield x
     if case["mode"] == "full":
         for c in itertools.product(vv, repeat=n):
             yield np.array(c)
@@ -84,8 +97,32 @@ def numgrad(f, x):
 
 def run(case):
     import lbfgsb
-    f = getattr(lbfgsb, case["fn"])
-    g = getattr(lbfgsb, case["fn"] + "_grad")
+    f_lib = getattr(lbfgsb, case["fn"])
+    g_lib = getattr(lbfgsb, case["fn"] + "_grad")
+    raised = []
+
+    class Raised(Exception):
+        pass
+
+    def guard(fn, name):
+        def w(x):
+            try:
+                return fn(x)
+            except Exception as e:       # a benchmark raising at a regular point
+                raised.append((name, repr(e)[:200], [float(t) for t in np.asarray(x).ravel()]))
+                raise Raised()
+        return w
+    f, g = guard(f_lib, "function"), guard(g_lib, "gradient")
+    try:
+        return _run(case, f, g)
+    except Raised:
+        name, exc, pt = raised[0]
+        return dict(viol=[V("function_or_gradient_raises_at_a_regular_point",
+                            _case=dict(case, point=pt), which=name, exc=exc)],
+                    nontrivial=None, n_exec=1, outcomes={case["fn"]: 1})
+
+
+def _run(case, f, g):
     viol, keys, nex = [], [], 0
     # first sweep: one work array, overwritten in place from point to point, nothing else
     # evaluated in between (value and gradient alternately first)
